@@ -1016,6 +1016,13 @@ int32_t tls13WritePreSharedKey(ssl_t *ssl,
     return PS_SUCCESS;
 
 out_internal_failure:
+    if (!MATRIX_IS_SERVER(ssl))
+    {
+        /* Initialised in the client branch before anything can fail. */
+        psDynBufUninit(&idBuf);
+        psDynBufUninit(&binderBuf);
+    }
+    psDynBufUninit(&pskBuf);
     ssl->err = SSL_ALERT_INTERNAL_ERROR;
     return MATRIXSSL_ERROR;
 }
@@ -1221,6 +1228,8 @@ int32_t tls13WritePskKeyExchangeModes(ssl_t *ssl,
     return PS_SUCCESS;
 
 out_internal_failure:
+    psDynBufUninit(&modesBuf);
+    psDynBufUninit(&buf);
     ssl->err = SSL_ALERT_INTERNAL_ERROR;
     return MATRIXSSL_ERROR;
 }
